@@ -51,6 +51,7 @@ fn main() {
         "sessions" => fqv::scen_render::sessions(&mut sink, seed, thorough, &arg(&args, "--alphabet", ""), &arg(&args, "--replay-in", "")),
         "callbacks" => fqv::scen_render::callbacks(&mut sink, seed, thorough),
         "conv" => fqv::scen_render::conv(&mut sink, seed, thorough),
+        "rasterframes" => fqv::scen_render::rasterframes(&mut sink, seed, thorough),
         "raster" => fqv::scen_render::raster(&mut sink, seed, thorough),
         #[cfg(any(feature = "hooks", feature = "wasmonly"))]
         "wasm" => fqv::scen_wasm::wasm(&mut sink, seed, thorough, &arg(&args, "--alphabet", ""), &arg(&args, "--replay-in", "")),
@@ -58,6 +59,8 @@ fn main() {
         "versionget" => scen_hook::versionget(&mut sink),
         #[cfg(feature = "hooks")]
         "encode" => scen_hook::encode(&mut sink, seed, thorough),
+        #[cfg(feature = "hooks")]
+        "birthday" => scen_hook::birthday(&mut sink, seed, thorough),
         #[cfg(feature = "hooks")]
         "rs" => scen_hook::rs(&mut sink, seed, thorough),
         #[cfg(feature = "hooks")]
